@@ -270,6 +270,27 @@ def run_check(prop, tier, seed, replay=None):
                     if v != "ok" and prop.verdict_concerns(v):
                         oracle_fail.append((oidx[j], olines[j], v))
 
+    # ---- 5b. property-specific runtime harness (child processes, threads …)
+    custom = None
+    if hasattr(prop, "custom_check") and replay is None:
+        try:
+            custom = prop.custom_check(tier, rng, {"exe": exe, "driver": driver, "build": build})
+        except build.BuildError as e:
+            broken.append({"kind": "harness", "what": e.what, "log": e.log[-4000:]})
+            custom = None
+        if custom:
+            for f in custom.get("failures", []):
+                sig = f.get("signature", pid + ":" + f.get("what", "")[:80])
+                if sig in known_active:
+                    res.known.append("KNOWN-FINDING: property=%s %s" % (pid, known_active[sig].get("what", sig)))
+                    continue
+                if len(res.violations) >= MAX_REPORTED:
+                    res.suppressed += 1
+                    continue
+                path = os.path.join(replay_dir, "%s-%s.json" % (pid, hashlib.sha256(json.dumps(f, sort_keys=True).encode()).hexdigest()[:10]))
+                write_json(path, dict(f, property=pid, kind="runtime-harness"))
+                res.violations.append((path, ""))
+
     # ---- 6. classify
     seen_sigs = set()
     for i, oline, v in oracle_fail:
@@ -357,6 +378,7 @@ def run_check(prop, tier, seed, replay=None):
             "known_findings_reproduced": len(res.known),
             "broken": [{"kind": b["kind"], "what": b["what"]} for b in broken],
             "regenerated": "lean/Tpp/Generated/Consts.lean from /repo/include (harness/extract_consts.cpp)",
+            "runtime_harness": ({k: v for k, v in custom.items() if k != "failures"} if custom else None),
         },
         "assumptions": prop.ASSUMPTIONS,
         "wall_s": round(time.time() - t0, 2),
